@@ -1,5 +1,5 @@
 """C05 - roll produces exactly the count-based sliding windows, in order."""
-from .. import opspecs, spaces
+from .. import opspecs, spaces, harness
 from ..drivers import run_api_mux, run_raw_mux, lifetimes, store_snapshot, new_store
 from ..engine import fast_hash
 
@@ -166,10 +166,20 @@ def run_case(case, acc):
         import rxsci as rs
         from ..drivers import Sink
         sink = Sink()
-        sink.subscribe_to(rx.from_(items).pipe(rs.state.with_store(store, opspecs.build(spec, ctx))))
+        obs = rx.from_(items).pipe(rs.state.with_store(store, opspecs.build(spec, ctx)))
+        sink.subscribe_to(obs)
         acc.evals += 1
         acc.events += n + 1
         acc.traces += 1
+        if not big and n <= w + s + 1:
+            harness.resubscribe(obs, sink, ctx)
+            acc.evals += 1
+            acc.events += n + 1
+            acc.traces += 1
+            acc.count('second_subscriptions')
+            d = harness.second_problem(sink)
+            if d:
+                out.append(viol('top|second-subscription-differs', dict(d, w=w, s=s, n=n)))
         exp = windows(items, w, s)
         if sink.error is not None or sink.completed != 1:
             out.append(viol('top|stream-not-completed', {'status': sink.status()}))
@@ -217,10 +227,20 @@ def run_case(case, acc):
     import rxsci as rs
     from ..drivers import Sink
     sink = Sink()
-    sink.subscribe_to(rx.from_(items).pipe(rs.state.with_store(store, opspecs.build(spec, ctx))))
+    obs = rx.from_(items).pipe(rs.state.with_store(store, opspecs.build(spec, ctx)))
+    sink.subscribe_to(obs)
     acc.evals += 1
     acc.events += len(items) + 1
     acc.traces += 1
+    if len(items) <= 5:
+        harness.resubscribe(obs, sink, ctx)
+        acc.evals += 1
+        acc.events += len(items) + 1
+        acc.traces += 1
+        acc.count('second_subscriptions')
+        d = harness.second_problem(sink)
+        if d:
+            out.append(viol('%s|second-subscription-differs' % fam, dict(d, spec=spec, items=items)))
     m = opspecs.model(spec)
     exp = []
     for x in items:
